@@ -16,11 +16,17 @@ func init() {
 	register("C01", "other", []string{
 		"decides: the splitter regexps' language (name group excludes only '=' / ':', value group matches any text incl. newlines), verbatim provenance token -> splitter -> Save -> receiver variable, converter identity (Atoi / ParseFloat(_,64)) and error discipline, bool/increment update shape, Called/UsedAlias stored on every match",
 		"does not decide what strconv / regexp compute (trusted), nor the behaviour for an empty attached value (`--name=`), which the statement excludes",
-	}, rC01Regex, rC01Splitter, rC01ParserArgs, rC01TypedStore, rC01ErrDiscipline, rC01CalledOnMatch, rC01NoValueArm, exactStopsRule("R01.8"), func(w *World, r *Report) { subRule(w, r, rC10CopyOptions, "R01.9", "Called and the value are read from the very record the parser wrote: commands share the parent's option records by pointer (same obligations as C10 R10.5)", 3) })
+	}, rC01Regex, rC01Splitter, rC01ParserArgs, rC01TypedStore, rC01ErrDiscipline, rC01CalledOnMatch, rC01NoValueArm, exactStopsRule("R01.8"), func(w *World, r *Report) {
+		subRule(w, r, rC10CopyOptions, "R01.9", "Called and the value are read from the very record the parser wrote: commands share the parent's option records by pointer (same obligations as C10 R10.5)", 3)
+	})
 	register("C02", "other", []string{
 		"decides: shape of the min/max intake loops (strict bound, start at the number of attached values, one advance and one Save per iteration), look-ahead stop set and its agreement with Save's converters, append order, first-'=' split of map elements, inclusive range expansion shape, definition-time validation of (min,max)",
 		"does not decide the arithmetic 'total consumed = attached + following <= max' beyond the loop shape",
-	}, rC02Loops, rC02Lookahead, rC02ConverterAgreement, rC02AppendOrder, rC02SplitFirst, rC02Range, rC02Validation, rC04LookaheadFor("R02.8"), rC02ExactStops, func(w *World, r *Report) { subRule(w, r, rC01Splitter, "R02.10", "an `=`-attached value is one value: the splitter does not cut it further (same obligations as C01 R01.2)", 5) }, func(w *World, r *Report) { subRule(w, r, rC07ModeFlow, "R02.11", "occurrences after a command name are tokenised with the same (root) mode (same obligations as C07 R07.1)", 4) })
+	}, rC02Loops, rC02Lookahead, rC02ConverterAgreement, rC02AppendOrder, rC02SplitFirst, rC02Range, rC02Validation, rC04LookaheadFor("R02.8"), rC02ExactStops, func(w *World, r *Report) {
+		subRule(w, r, rC01Splitter, "R02.10", "an `=`-attached value is one value: the splitter does not cut it further (same obligations as C01 R01.2)", 5)
+	}, func(w *World, r *Report) {
+		subRule(w, r, rC07ModeFlow, "R02.11", "occurrences after a command name are tokenised with the same (root) mode (same obligations as C07 R07.1)", 4)
+	})
 }
 
 func rC04LookaheadFor(id string) func(w *World, r *Report) {
